@@ -170,6 +170,9 @@ def work(case):
             if rng.random() < 0.5:
                 # a target that crosses the boundary of another reviewer's pending insertion
                 edits += [e for e in editgen.gen_cross_ins_any(rng, case["doc"], texts) if not any(e["pi"] == y["pi"] for y in edits)]
+            if rng.random() < 0.5:
+                # text of a pending insertion in a header / footer (the nested-edit path looks it up in its own story)
+                edits += [e for e in editgen.gen_hf_ins_edit(rng, case["doc"], texts) if not any(e["pi"] == y["pi"] for y in edits)]
             if rng.random() < 0.4:
                 # a target quoted with the bold / italic markers of a formatted run (text put behind / before the markers)
                 edits += editgen.gen_marked_edit(rng, case["doc"], texts, avoid_pi={e["pi"] for e in edits})
@@ -181,7 +184,10 @@ def work(case):
         # the last order of the batch goes to the Lean model of the heuristic path as well
         hz = {"edits": order, "res": runs[-1]["res"]}
     case = dict(case, edits=edits)
+    body = sem.body_story_index(case["doc"])
+    in_hf = any(e.get("state") in ("cross_ins", "ins") and e.get("si") is not None and e["si"] != body for e in edits)
     return {"case": case, "runs": runs, "heur": hz, "fuzzy_dom": any(fuzzy_raw_hit(texts, e) for e in edits),
+            "hyp": {"edit_touching_insertion_in_header_or_footer": in_hf},
             "sample": {"edits": [(e["target"], e["new"], e["kind"]) for e in edits]}}
 
 
@@ -203,10 +209,6 @@ def classify(res):
     if res.get("fuzzy_dom"):
         return "F-fuzzy-raw-precedence"
     edits = res["case"]["edits"]
-    body = sem.body_story_index(res["case"]["doc"])
-    if any(e.get("state") in ("cross_ins", "ins") and e.get("si") is not None and e["si"] != body for e in edits):
-        # the changed words may lie in a pending insertion of a header / footer: looked up in the main part only
-        return "F-insertion-in-header-not-editable"
     for i, e in enumerate(edits):
         if any(j != i and e["target"] and e["target"] in (o["new"] or "") for j, o in enumerate(edits)):
             return "F-target-in-new-text-of-batch"
